@@ -92,6 +92,8 @@ def build(tier: str) -> Cases:
     for s in G.long_index_sources():
         cs.whole(s, False, "corpus")
         cs.whole(s, True, "corpus")
+    for s in G.range_leak_sources():
+        cs.whole(s, False, "generated")
     # 2. grammar-generated templates
     gen = [G.g_template(r) for _ in range(2500 if thorough else 260)]
     gen = [g for g in gen if len(g) <= 400]
